@@ -316,6 +316,12 @@ where
         let welcome_preview = self.preview_welcome(&welcome.wrapper_event_id, &welcome.event)?;
         let mls_group = welcome_preview.staged_welcome.into_group(&self.provider)?;
 
+        // Rollback snapshots left from an earlier membership in this group belong to another
+        // branch of its history: a replayed old commit must not roll the new membership back
+        // into them.
+        self.epoch_snapshots
+            .release_group(self.storage(), &mls_group.group_id().into());
+
         // Update the welcome to accepted
         let mut welcome = welcome.clone();
         welcome.state = welcome_types::WelcomeState::Accepted;
